@@ -2,7 +2,7 @@
    combinations model and the independent-set model; truth-table / product
    decisions evaluated on the energies the implementation reported. *)
 From Coq Require Import List ZArith QArith Qcanon Bool Arith.
-From Dimod Require Import Base.Util Model.Poly Model.Comb Gen.Gen_Gates Gen.Gen_Combinations Gen.Gen_Graph Model.Gates Model.Knap Model.MultCircuit Model.Qap Model.Magic Model.Sat.
+From Dimod Require Import Base.Util Model.Poly Model.Comb Gen.Gen_Gates Gen.Gen_Combinations Gen.Gen_Graph Model.Gates Model.Knap Model.QKnap Gen.Gen_Knap Model.MultCircuit Model.Qap Model.Magic Model.Sat Gen.Gen_Sat.
 Import ListNotations.
 Open Scope Qc_scope.
 
@@ -40,12 +40,18 @@ Inductive case :=
       (rows : list (list bool * bool * Qc))
 | CBp (weights : list Qc) (capacity : Qc) (obj : obs) (cons : list (obs * sense * Qc))
       (rows : list (list bool * bool * Qc))
+(* quadratic variants: the constructions TRANSLATED from the source (Gen/Gen_Knap.v) are the model *)
+| CQKnap (values weights : list Qc) (profits : matrix) (capacity : Qc) (obj : obs) (cons : list (obs * sense * Qc))
+         (rows : list (list bool * bool * Qc))
+| CQMk (values weights : list Qc) (profits : matrix) (capacities : list Qc) (obj : obs) (cons : list (obs * sense * Qc))
+       (rows : list (list bool * bool * Qc))
 | CQap (n : nat) (F D : matrix) (obj : obs) (cons : list (obs * sense * Qc))
        (rows : list (list bool * bool * Qc))
 (* magic_square(n, power): reported constraints; integer assignments (cells row by row, then "sum") with check_feasible *)
 | CMagic (n power : nat) (cons : list (obs * sense * Qc)) (rows : list (list Z * bool))
 (* random_kmcsat / nae3sat / 2in4sat: the clauses drawn (replayed from the seed), the BQM, energies of all spin assignments *)
-| CSat (k : nat) (planted : bool) (n : nat) (clauses : list clause) (bqm : obs) (rows : list (list bool * Qc)).
+(* wrapper: 0 = random_kmcsat, 1 = random_nae3sat, 2 = random_2in4sat (their k is the TRANSLATED one) *)
+| CSat (wrapper : nat) (k : nat) (planted : bool) (n : nat) (clauses : list clause) (bqm : obs) (rows : list (list bool * Qc)).
 
 Definition bits_eqb := list_eqb Bool.eqb.
 Definition rows_complete (n : nat) (rows : list (list bool * Qc)) : bool :=
@@ -148,14 +154,26 @@ Definition check (c : case) : bool :=
       let n := length weights in
       check_lcqm (bp_model weights capacity) (n + n * n) obj cs rows
            (bp_ok weights capacity n) (bp_open_bins n)
+  | CQKnap values weights profits capacity obj cs rows =>
+      let n := length values in
+      (length weights =? n)%nat && (length profits =? n)%nat
+      && check_lcqm (gen_quadratic_knapsack values weights profits capacity) n obj cs rows
+           (ks_ok weights capacity n) (fun x => - ks_value values n x - pair_profit profits x)
+  | CQMk values weights profits capacities obj cs rows =>
+      let n := length values in let b := length capacities in
+      (length weights =? n)%nat && (length profits =? n)%nat
+      && check_lcqm (gen_quadratic_multi_knapsack values weights profits capacities) (n * b) obj cs rows
+           (mk_ok weights capacities n b) (fun x => - mk_value values n b x - pair_profit_multi profits b x)
   | CQap n F D obj cs rows =>
       let m := qap_model n F D in
       check_lcqm m (n * n) obj cs rows (qap_ok n) (energy (q_obj m))
   | CMagic n power cs rows =>
       forallb2 (qcon_matches (n * n + 1)) (magic_constraints n power) cs
       && forallb (fun r => Bool.eqb (snd r) (magic_feasibleb n power (zsample (fst r)))) rows
-  | CSat k planted n clauses bqm rows =>
-      forallb (clause_ok k planted) clauses
+  | CSat wrapper k planted n clauses bqm rows =>
+      match wrapper with 1%nat => (k =? sat_nae3_k)%nat | 2%nat => (k =? sat_2in4_k)%nat | _ => true end
+      && forallb (clause_ok k planted) clauses
+      && forallb (fun c => negb planted || (Z.abs (zsum (map snd c)) <=? sat_plant_bound)%Z) clauses
       && poly_coeff_eqb n (sat_poly clauses) (obs_poly bqm)
       && rows_complete n rows
       && forallb (fun r => Qc_eqb (snd r) (z2q (sat_energy clauses (spin_of (fst r))))) rows
